@@ -1184,7 +1184,7 @@ def life_scripts(tier, rng):
     return scripts
 
 
-def run_life(scripts, race=False, watchdog=3000, cmd="life-run", procs=8):
+def run_life(scripts, race=False, watchdog=3000, cmd="life-run", procs=8, extra=()):
     """Runs lifecycle scripts in driver processes (a hang abandons the process; the rest is re-run)."""
     import shutil
     import subprocess
@@ -1209,7 +1209,7 @@ def run_life(scripts, race=False, watchdog=3000, cmd="life-run", procs=8):
             env["GORACE"] = "log_path=%s halt_on_error=0 exitcode=0" % racelog
         pending = []
         for j in jobs:
-            j["p"] = subprocess.Popen([drv, cmd, "-scripts", j["pf"], "-out", j["rf"], "-seed", str(SEED), "-watchdog", str(watchdog)],
+            j["p"] = subprocess.Popen([drv, cmd, "-scripts", j["pf"], "-out", j["rf"], "-seed", str(SEED), "-watchdog", str(watchdog)] + list(extra),
                                       cwd=run, stdout=subprocess.DEVNULL, stderr=subprocess.DEVNULL, env=env)
             pending.append(j)
         import time as _t
@@ -1229,7 +1229,7 @@ def run_life(scripts, race=False, watchdog=3000, cmd="life-run", procs=8):
                     with open(j["pf"], "w") as fh:
                         for s_ in rest:
                             fh.write(json.dumps(s_) + "\n")
-                    j["p"] = subprocess.Popen([drv, cmd, "-scripts", j["pf"], "-out", j["rf"], "-seed", str(SEED), "-watchdog", str(watchdog)],
+                    j["p"] = subprocess.Popen([drv, cmd, "-scripts", j["pf"], "-out", j["rf"], "-seed", str(SEED), "-watchdog", str(watchdog)] + list(extra),
                                               cwd=run, stdout=subprocess.DEVNULL, stderr=subprocess.DEVNULL, env=env)
                 elif rc in (0, 3):
                     pending.remove(j)
@@ -1334,22 +1334,26 @@ def gate_goal_behaviours(tier):
     return [b for b, _ in got], [a for _, a in got]
 
 
-def gate_replay(ck, prop, tier):
+def gate_replay(ck, prop, tier, front="api"):
     """Specification -> implementation: behaviours of the lifecycle model forced onto the real Search through the hook
-    gates (driver command life-gate)."""
+    gates (driver command life-gate). front="uci": the controller's calls are command lines written to a real
+    UciHandler.Loop (behaviours with WaitWhileSearching, which no command line triggers, are left out)."""
+    extra = ["-front", front]
     chosen, ngen, ncov, nall, art = gate_behaviours(tier)
     ck.add_tlc(art)
     goals, garts = gate_goal_behaviours(tier)
     for a in garts:
         ck.add_tlc(a)
     chosen = goals + chosen
+    if front == "uci":
+        chosen = [b for b in chosen if not any(st["l"] == "call.wait" for st in b["steps"])]
     byid = {b["id"]: b for b in chosen}
-    results, _ = run_life(chosen, watchdog=8000, cmd="life-gate")
+    results, _ = run_life(chosen, watchdog=8000, cmd="life-gate", extra=extra)
     again = [byid[r["id"]] for r in results if r["hang"]]
     if again:
         confirmed = {}
         for b in again[:8]:
-            rr, _ = run_life([b], watchdog=20000, cmd="life-gate", procs=1)
+            rr, _ = run_life([b], watchdog=20000, cmd="life-gate", procs=1, extra=extra)
             confirmed[b["id"]] = rr[0]
         results = [confirmed.get(r["id"], r) if r["hang"] else r for r in results]
         results = [r for r in results if not r["hang"] or r["id"] in confirmed]
@@ -1361,7 +1365,7 @@ def gate_replay(ck, prop, tier):
     redo = [byid[r["id"]] for r in results if (r.get("diverged") or r.get("stuck") or r.get("early") or r["results"] != r["accepted"])
             and not r["hang"]][:32]
     if redo:
-        rr, _ = run_life(redo, watchdog=8000, cmd="life-gate", procs=2)
+        rr, _ = run_life(redo, watchdog=8000, cmd="life-gate", procs=2, extra=extra)
         second = {r["id"]: r for r in rr}
         results = [second.get(r["id"], r) if not r["hang"] else r for r in results]
 
@@ -1398,7 +1402,7 @@ def gate_replay(ck, prop, tier):
         for e in res.get("stuck") or []:
             disc("search-does-not-end", "no-self-end/" + e["mode"], res, {"search": e["search"], "note": e["note"], "diverged": d})
     ck.cov.setdefault("counters", {})
-    ck.cov["counters"].update({"gate_behaviours_generated": ngen, "gate_behaviours_replayed": len(results), "gate_in_lock_step": lock,
+    ck.cov["counters"].update({"gate_front": front, "gate_behaviours_generated": ngen, "gate_behaviours_replayed": len(results), "gate_in_lock_step": lock,
                                "gate_diverged": div, "gate_steps_in_lock_step": steps, "gate_context_switches_forced": switches,
                                "gate_features_covered": ncov, "gate_features_in_generated_set": nall, "gate_scenario_goals": len(goals),
                                "gate_scenario_goals_in_lock_step": sum(1 for r in results if r["id"] >= 900000 and not r.get("diverged"))})
@@ -1962,8 +1966,15 @@ def check_C12(tier):
     ck.cov["evaluations"] = len(scripts)
     ck.cov["distinct_nontrivial"] = len(scripts)
     ck.cov["traces_validated_against_impl"] = nacc
+    # ---- the interleavings inside the engine, at the wire: behaviours of SearchLifecycleGen.tla (simulated + scenario goals) forced onto
+    # a real UciHandler.Loop through the hook gates, the controller's calls being command lines (position + go, stop, ponderhit,
+    # ucinewgame, isready, setoption Clear Hash / Hash) and the results bestmove lines
+    ck.cov["counters"] = {}
+    gate_replay(ck, "C12", tier, front="uci")
+    gcnt = ck.cov.get("counters", {})
     ck.cov["counters"] = {"protocol_sessions": nsess, "handler_sessions": len(hsess), "sessions_accepted_by_spec": nacc, "position_fens_compared": nfen, "session_config_print_outs_compared": nprint,
                           "newgame_pairs": ncmp, "option_sessions": nopt}
+    ck.cov["counters"].update({k_: v_ for k_, v_ in gcnt.items() if k_.startswith("gate_")})
     ck.cov["rule"] = ("real UciHandler.Loop sessions over pipes, one child process each: seeded protocol-valid sessions (every go mode, go sent "
                       "immediately after bestmove, isready during search, stop, ponderhit) whose exchanged lines are validated against "
                       "UciSession.tla; sessions generated by TLC from UciHandler.tla (position commands extending / shortening / repeating / "
